@@ -64,6 +64,12 @@ func suiteIndexScan(c *Ctx) error {
 	thresholds := []float64{0.01, 0.5, 0.75, 0.99, 1.0}
 	for pi := 0; pi < n; pi++ {
 		p := GenProgram(r.Fork(), "genpkg", 3, 8)
+		// three functions of ONE shape (hence one topology hash) that differ only in their string
+		// literals: every one of them must still be found in exact mode, not just the last indexed
+		for k, lits := range [][2]string{{"alpha-one", "beta"}, {"gamma-two-longer", "d"}, {"epsilon/3", "zeta zeta"}} {
+			p.Funcs = append(p.Funcs, &GFunc{Name: fmt.Sprintf("Twin%c", 'A'+k), Family: "same-hash-twin", Params: []GParam{{"x", TInt}}, Results: []GType{TStr},
+				Body: []GStmt{SRaw{fmt.Sprintf("if §x§ > 1 {\n\treturn %q\n}\nreturn %q", lits[0], lits[1])}}})
+		}
 		src := p.Render(nil, nil, 0)
 		fams := map[string]string{}
 		for _, f := range p.Funcs {
